@@ -1,6 +1,8 @@
-CONSTANTS Chans = {1, 3} Rows = {0, 14} Chars = {65, 32} MaxPairs = 4
+CONSTANTS Chans = {1} Rows = {0, 14} Chars = {65, 32} MaxPairs = 4
+  Indents = {0, 28} Depths = {2, 3} Tabs = {1, 3}
+  Kinds = {"RCL", "RDC", "EOC", "EDM", "ENM", "CR", "BS", "DER", "RU", "TO", "PAC", "MID", "SPC", "NULL", "TEXT"}
 SPECIFICATION Spec
 CONSTRAINT Bounded
 INVARIANTS CursorOK WindowOK
-PROPERTIES PopOnStable
+PROPERTIES PopOnStable OneRep
 CHECK_DEADLOCK FALSE
